@@ -195,6 +195,19 @@ func extraValues(rng *rand.Rand, n int) []T {
 	for _, s := range []string{"", "a\"b\\c/d", "\x00\x01\x1f\x7f", "\b\f\n\r\t", "é ü ß", "  ", "😀 𝄞", "<>&'", "\\u0041 \\n", "日本語", "�", "tab\there", strings.Repeat("x", 300)} {
 		vs = append(vs, str(s), obj(s, str(s)), arr(str(s), str(s+"\"")))
 	}
+	// deep nesting: the indentation of indented output grows past every fixed-size stock of spaces an encoder may keep; a sibling follows the
+	// deep member so that the separators and the closing brackets at every level are written after the long indent
+	for _, depth := range []int{9, 17, 31, 32, 33, 34, 40, 65, 70, 100} {
+		v := arr(num("1"), str("leaf"))
+		for k := 0; k < depth; k++ {
+			if (k+depth)%2 == 0 {
+				v = obj("a", v, "b", num(strconv.Itoa(k)))
+			} else {
+				v = arr(v, num(strconv.Itoa(k)), mk("null"))
+			}
+		}
+		vs = append(vs, v)
+	}
 	for i := 0; i < n; i++ { // random strings over a nasty alphabet, random float bit patterns, random wide integers
 		al := []rune{'a', '"', '\\', '/', 0, 1, 0x1b, 0x7f, 0x80, 0xff, 0x2028, 0xd7ff, 0xe000, 0xfffd, 0x10000, 0x10ffff, 'é', '\n', ' ', '{', ']'}
 		rs := make([]rune, rng.Intn(12))
@@ -240,6 +253,9 @@ func jsonCases(casesPath, outPath string) {
 		{"argjson -C -c", []string{"-n", "-C", "-c", "--argjson", "v", all, "$v[]"}},
 		{"tojson -r", []string{"-n", "-r", "--argjson", "v", all, "$v[] | tojson"}},
 		{"@json -r", []string{"-n", "-r", "--argjson", "v", all, "$v[] | @json"}},
+		{"tojson({indent:8}) -r", []string{"-n", "-r", "--argjson", "v", all, "$v[] | tojson({indent: 8})"}},
+		{"tojson({indent:3}) -r", []string{"-n", "-r", "--argjson", "v", all, "$v[] | tojson({indent: 3})"}},
+		{"-d json tovalue|tojson({indent:7})", []string{"-d", "json", "-r", ".[] | tovalue | tojson({indent: 7})", "vals.json"}},
 		{"fromjson", []string{"-n", "-c", "--argjson", "t", string(tj), "$t[] | fromjson"}},
 		{"-d json -V", []string{"-d", "json", "-V", ".[]", "vals.json"}},
 		{"-d json -V -c", []string{"-d", "json", "-V", "-c", ".[]", "vals.json"}},
